@@ -264,7 +264,11 @@ func verifDir() string {
 
 func loadKnown() {
 	kfOnce.Do(func() {
-		b, err := os.ReadFile(filepath.Join(verifDir(), "known_findings.json"))
+		path := filepath.Join(verifDir(), "known_findings.json")
+		if p := os.Getenv("VERIF_KNOWN_FILE"); p != "" {
+			path = p // development aid for triage only; never set by registered commands
+		}
+		b, err := os.ReadFile(path)
 		if err != nil {
 			return
 		}
